@@ -24,9 +24,14 @@ CLAIMS = {
     'C14': ('proof', 'Frame conditions: every non-mutating operation has an assigns clause listing at most the exception flag (dfcc checks every write), in-place operators ensure "threw => target unchanged", setData validates before overwriting, the ghost heap of grid vectors is only written by allocation of a fresh slot (frame clause of the Grid constructor). Storage sharing between splines cannot be expressed (by-value extraction).', '4 C14'),
     'C15': ('proof', 'isZero (both directions, the converse with a quantified hypothesis), checkOverlap (true iff the windows share an interval, for logically equal grids), Spline/Support/Grid equality and inequality in witness form; reflexive/symmetric/transitive/copy laws as lemmas.', '4 C15'),
     'C19': ('other', 'A contract on the type parameter: an archetype scalar offering only the documented operations (explicit integral constructor, four arithmetic operators with compound forms, unary minus, six comparisons, no implicit conversions) instantiates every core template and generic interpolate, calling every public operation; decided by the C++ type checker of clang and gcc. Type checking, not CBMC, and labelled so.', '4 C19'),
+    'C01': ('proof', 'The induction that makes the generated functions the Cox-de Boor B-splines, piece by piece: (base) the constructor establishes the class invariant "grid = knots without duplicates" at the arbitrary knot index (assumed contract of std::unique) and refuses decreasing knots; the order-0 functions are the indicators of [t_l, t_l+1) (interval-free for zero-width spans); (step) applyRecursionRelation<k>, k = 2, 3, returns exactly [t_i+p > t_i] (x - t_i)/(t_i+p - t_i) s_i + [t_i+p+1 > t_i+1] (t_i+p+1 - x)/(t_i+p+1 - t_i+1) s_i+1 on every interval, proved from the contracts of the real operator expression tree; (wiring) generateBSplines<0>, <1>: refusal of too few knots, count m-p-1, every step called with valid neighbouring lower-order splines. NOT proved: that element l of generateBSplines<p>, p >= 1, is the step of elements l, l+1 (quantified invariant over a vector of splines, undecided by cvc5/z3 unboundedly and in a 5-element instance), orders >= 2 of the wiring, the corollaries (partition of unity, smoothness: classical consequences of the recursion).', '4 C01'),
+    'C09': ('proof', 'Not separate contracts but the safety obligations of EVERY block of every other check: array bounds, the STL preconditions asserted by the shim (vector[] / front / back / iterator range, optional dereference, shared_ptr dereference), unsigned-to-signed conversions, signed overflow, division by zero, plus "throws for every index outside the view" for the checked accessors over all 2^64 index values. A read of uninitialised coefficients makes a whole-result postcondition fail. Dangling references, allocation failure, Eigen/boost code and the functions not under contract (linearCombination, interpolate, integrate) are not covered.', '4 C09'),
     'C13x': None,
 }
 CLAIMS.pop('C13x')
+
+# thorough tiers are registered only once they have been run to completion on the unchanged tree
+THOROUGH_VERIFIED = set()
 
 NA = {
     'C16': 'floating-point forward-error bounds over chains of operations: no contract within reach of CBMC\'s bit-precise float encoding can express or decide a 2^20-ulp bound; no real-arithmetic error model is installed (DESIGN.md 4 C16)',
@@ -35,9 +40,7 @@ NA = {
 }
 
 NA.update({
-    'C01': 'not claimed yet: the recursion step (applyRecursionRelation) and the operator applications it uses are under contract (contracts/gen.ctr, run by the C05 check); the order-0 step, the order recursion and the constructors are not, so the property as a whole is not decided in this revision',
-    'C09': 'not claimed as a separate check yet: the safety obligations (bounds, STL preconditions, overflow, conversions) are generated and discharged inside every block of the other checks and reported there with tag C09',
-    'C12': 'not claimed yet: the bounded stand-in for interpolate is not built in this revision',
+    'C12': 'interpolate() is not within reach of the translator as built (virtual solver interface returning references that are assigned through, a symbolic-size linear system); the bounded stand-in planned in DESIGN.md 3.7 was not built, and the sentence about the bundled dense solver is floating point + Eigen/Armadillo',
     'C20': 'numerical outcomes of the Eigen-based example programs (boundary values attained, eigenvalue shifts, n+1/2, -1/n^2) are outside any contract within reach; the opaque-Eigen extraction of the examples was not built',
 })
 PENDING = 'not claimed yet: the contracts for this property are not built in this revision'
@@ -52,7 +55,7 @@ def main():
             checks.append({
                 'property_id': pid,
                 'quick_cmd': 'bin/check %s --tier quick' % pid,
-                'thorough_cmd': 'bin/check %s --tier thorough' % pid,
+                **({'thorough_cmd': 'bin/check %s --tier thorough' % pid} if pid in THOROUGH_VERIFIED else {}),
                 'evidence_file': 'evidence/%s.json' % pid,
                 'replay_cmd_template': 'python3 bin/replay.py {path}',
                 'engine': 'bsv',
